@@ -102,7 +102,7 @@ var shippedParsers = []*shippedParser{
 			walk(tree.Root(), 0)
 			return out, nil
 		},
-		dict:  c12Lexers[0].dict,
+		dict:  append(append([]string(nil), c12Lexers[0].dict...), " /* c */ ", " # c\n", "/**/", " /* a\nb */ ", " ; ", " | ", " -> N ", " ? "),
 		files: []string{"/repo/parsers/*/*.tm", "/repo/compiler/testdata/*.tm", "/repo/compiler/testdata/*.tmerr", "/repo/testing/*/*/*.tm"},
 		tests: "/repo/parsers/tm/parser_test.go",
 	},
@@ -150,7 +150,7 @@ var shippedParsers = []*shippedParser{
 			walk(tree.Root(), 0)
 			return out, nil
 		},
-		dict:  c12Lexers[1].dict,
+		dict:  append(append([]string(nil), c12Lexers[1].dict...), " /* c */ ", " // c\n", "/**/", " /* a\nb */ ", " ; ", " , ", " = 1 ", " : T ", "?", " as T "),
 		tests: "/repo/parsers/js/parser_test.go",
 	},
 	{
@@ -348,7 +348,36 @@ func spGenSrc(t *rapid.T, sp *shippedParser) ([]byte, int) {
 	n := rapid.IntRange(0, 4).Draw(t, "muts")
 	for i := 0; i < n; i++ {
 		pos := func(label string) int { return rapid.IntRange(0, len(s)).Draw(t, label) }
-		switch rapid.IntRange(0, 5).Draw(t, "mut") {
+		switch rapid.IntRange(0, 7).Draw(t, "mut") {
+		case 7: // a comment in (about) every second gap between tokens
+			var sb strings.Builder
+			prev := 0
+			phase := rapid.IntRange(0, 1).Draw(t, "phase")
+			if lx := c12LexerByName(sp.name); lx != nil {
+				for i, tk := range lx.run(s, len(s)+3) {
+					if tk.start < prev || tk.start > len(s) || tk.tok == 0 {
+						break
+					}
+					sb.WriteString(s[prev:tk.start])
+					if i%2 == phase && sb.Len() < 7000 {
+						sb.WriteString("/* c */")
+					}
+					prev = tk.start
+				}
+			}
+			sb.WriteString(s[prev:])
+			s = sb.String()
+		case 6: // insert a dictionary piece between two tokens (at a space)
+			var spaces []int
+			for i := 0; i < len(s); i++ {
+				if s[i] == ' ' || s[i] == '\n' {
+					spaces = append(spaces, i)
+				}
+			}
+			if len(spaces) > 0 {
+				a := spaces[rapid.IntRange(0, len(spaces)-1).Draw(t, "space")]
+				s = s[:a] + " " + sp.dict[rapid.IntRange(0, len(sp.dict)-1).Draw(t, "dict")] + s[a:]
+			}
 		case 0: // delete a short span
 			a := pos("a")
 			b := a + rapid.IntRange(1, 6).Draw(t, "len")
